@@ -15,6 +15,7 @@
  */
 #pragma once
 
+#include <unifex/detail/verif_hooks.hpp>
 #include <unifex/async_manual_reset_event.hpp>
 #include <unifex/blocking.hpp>
 #include <unifex/get_allocator.hpp>
@@ -151,6 +152,7 @@ struct _spawn_future_op_base {
     // completion states; in the former case we want to mark it as abandoned and
     // in the latter we'll just allow the future to complete naturally
     auto expected = _future_state::init;
+    UNIFEX_VERIF_POINT(261);
     if (state_.compare_exchange_strong(
             expected,
             _future_state::abandoned,
@@ -192,6 +194,7 @@ struct _spawn_future_op_base {
 
     // the happy path is that we transition from init to the desired state
     auto expected = _future_state::init;
+    UNIFEX_VERIF_POINT(262);
     if (state_.compare_exchange_strong(
             expected,
             desired,
@@ -251,6 +254,7 @@ struct _spawn_future_op_base {
       // the future abandoned the operation but hasn't dropped its ownership
       // stake, yet; we need to coordinate who's going to delete the operation
       // state
+      UNIFEX_VERIF_POINT(263);
       if (state_.compare_exchange_strong(
               expected,
               _future_state::complete,
@@ -291,6 +295,7 @@ struct _spawn_future_op_base {
         // we want to give the spawned operation responsibility to delete the
         // operation state but it might have finished since we read the state as
         // init so try to assign the complete state with a CAS
+        UNIFEX_VERIF_POINT(264);
         if (state_.compare_exchange_strong(
                 state,
                 _future_state::complete,
@@ -738,6 +743,7 @@ struct _future_sender_from_stop_token<T...>::type final {
                 };
 
                 if (state == _future_state::abandoned) {
+                  UNIFEX_VERIF_POINT(265);
                   if (rawOp->state_.compare_exchange_strong(
                           state,
                           _future_state::complete,
